@@ -1,0 +1,31 @@
+//go:build verif
+
+package main
+
+// Verification hook (build tag verif only, add-only, no change of behaviour of a
+// normal build): when the environment variable SCION_TIME_VERIF_SYNCCONFIG names
+// a TOML configuration file, the program loads it with the service's own
+// loadConfig, passes it through the service's own clockDrift and syncConfig,
+// prints what they return and exits without starting anything. A setting that
+// the service refuses ends the process through logbase.Fatal as usual.
+
+import (
+	"fmt"
+	"math"
+	"os"
+)
+
+func init() {
+	file := os.Getenv("SCION_TIME_VERIF_SYNCCONFIG")
+	if file == "" {
+		return
+	}
+	cfg := loadConfig(file)
+	drift := clockDrift(cfg)
+	sc := syncConfig(cfg)
+	fmt.Printf("verif-syncconfig %d %d %d %d %d %d\n",
+		int64(drift),
+		math.Float64bits(sc.ReferenceClockImpact), math.Float64bits(sc.PeerClockImpact),
+		int64(sc.PeerClockCutoff), int64(sc.SyncTimeout), int64(sc.SyncInterval))
+	os.Exit(0)
+}
